@@ -38,7 +38,7 @@ func c02Check(x *vcRun, s *vcState, hist []vcEv) []hbfs.Fail {
 }
 
 func TestVerif_C02(t *testing.T) {
-	vcMain(t, &vcProp{ID: "C02", Check: c02Check, After: c02InSync},
+	vcMain(t, &vcProp{ID: "C02", Check: c02Check, After: c02InSync, QuickBatchBases: map[string][]string{"pol": {"full"}, "set": {"full"}}},
 		"states = (datastore content, in-sync flag, shadow dataplane content, EventSequencer pending-object digest) reached by histories of "+
 			"set(key,variant)/del(key)/flush/insync over three universes (pol, set, route), each from an empty graph and from a fully populated, in-sync, flushed graph; "+
 			"flush is a free event, so every placement of flush points up to the depth bound is a path; transitions = one event replayed on a fresh real graph; "+
